@@ -549,3 +549,216 @@ def multi_irregular(r, blocks=None):
     for b in blocks:
         lines += b
     return lines, info
+
+
+# --------------------------------------------------------------------------
+# irregular internal blanks ("ws" class): headings and trailers of the deb-changelog(5) shape whose blanks BETWEEN
+# the items are runs of 2, 3, 4, 7 spaces, tabs or mixtures.  A line is assembled from its items and a dict of
+# gaps {slot: run}; slots that are not mentioned get the regular spelling.  Which of these lines the library accepts
+# without a warning is NOT encoded here: the generator only knows where the format has a blank (or could have one),
+# the live parser decides, and the module counts the outcome.
+WS_RUNS = ['  ', '   ', '    ', '       ', '\t', '\t\t', ' \t', '\t ', ' \t ', '  \t  ', '   \t']
+WS_RUN_CLASS = {'  ': '2-spaces', '   ': '3-spaces', '    ': '4-spaces', '       ': '7-spaces', '\t': 'tab',
+                '\t\t': 'tabs'}
+# slot -> regular spelling
+WS_HEADING_SLOTS = {'pkg-paren': ' ', 'paren-dist': ' ', 'dist-dist': ' ', 'before-semi': '', 'after-semi': ' ',
+                    'urg-before-eq': '', 'urg-after-eq': '', 'urg-comment': ' ', 'in-comment': ' ',
+                    'before-comma': '', 'after-comma': ' ', 'pair-before-eq': '', 'pair-after-eq': '',
+                    'in-value': ' ', 'h-trailing': ''}
+WS_TRAILER_SLOTS = {'after-dashes': ' ', 'in-name': ' ', 'name-mail': ' ', 'in-mail': '', 'mail-date': '  ',
+                    'dow-day': ' ', 'in-date': ' ', 't-trailing': ''}
+WS_SLOTS = sorted(WS_HEADING_SLOTS) + sorted(WS_TRAILER_SLOTS)
+# slots where deb-changelog(5) has free-form text or a list separated by blanks (drawn three times as often by the
+# random generator as the slots where the format prescribes the exact spelling)
+WS_CORE_SLOTS = ['paren-dist', 'dist-dist', 'after-semi', 'urg-after-eq', 'urg-comment', 'in-comment', 'before-comma',
+                 'after-comma', 'pair-after-eq', 'in-value', 'h-trailing', 'in-name', 'name-mail', 'in-mail', 'dow-day',
+                 'in-date', 't-trailing']
+# items of the two fixed blocks the enumerations respell: plain (two distributions, nothing after the urgency) and
+# rich (three distributions, urgency comment, two extra pairs, three-word name, date without day of week)
+WS_BASES = [
+    {'h': {'pkg': 'wsp', 'ver': '1.0-1', 'dists': ['unstable', 'testing'], 'urg': 'low', 'comment': [], 'pairs': []},
+     't': {'name': ['A', 'B'], 'mail': ['a@b.c'], 'date': ['Mon,', '1', 'Jan', '2001', '00:00:00', '+0000']}},
+    {'h': {'pkg': 'ws-rich', 'ver': '1:2.5~rc1-3', 'dists': ['stable', 'testing', 'x+y'], 'urg': 'HIGH',
+           'comment': ['(HIGH', 'for', 'users)'], 'pairs': [['binary-only', ['yes']], ['XS-Foo', ['bar', 'baz', 'qux']]]},
+     't': {'name': ['Zoë', 'Q.', 'X'], 'mail': ['z@x', 'y'], 'date': ['31', 'Dec', '1999', '23:59:59', '-1200']}},
+]
+WS_CHANGES = ['', '  * change one', '    continuation', '']
+
+
+# other characters str.isspace() / the regex class \s know (no-break space, em space, ideographic space, form feed):
+# drawn by the random generator only, one run in twelve
+WS_UNI_RUNS = ['\u00a0', ' \u00a0 ', '\u2003', ' \u2003', '\u3000\u3000', '\x0c', '\u00a0\u00a0\u00a0']
+
+
+def ws_run_class(run):
+    if set(run) - set(' \t'):
+        return 'unicode-blank'
+    return WS_RUN_CLASS.get(run) or ('spaces' if set(run) == {' '} else 'tabs' if set(run) == {'\t'} else 'mixed')
+
+
+def _gap(gaps, slot, n=0):
+    v = gaps.get(slot)
+    if v is None:
+        return (WS_HEADING_SLOTS.get(slot) if slot in WS_HEADING_SLOTS else WS_TRAILER_SLOTS[slot])
+    if isinstance(v, list):
+        return v[n % len(v)]
+    return v
+
+
+def ws_heading(h, gaps):
+    """Heading line from its items h = {pkg, ver, dists, urg, comment (words), pairs [[key, value words]]}."""
+    s = h['pkg'] + _gap(gaps, 'pkg-paren') + '(' + h['ver'] + ')' + _gap(gaps, 'paren-dist')
+    for n, d in enumerate(h['dists']):
+        s += (_gap(gaps, 'dist-dist', n - 1) if n else '') + d
+    s += _gap(gaps, 'before-semi') + ';' + _gap(gaps, 'after-semi')
+    s += 'urgency' + _gap(gaps, 'urg-before-eq') + '=' + _gap(gaps, 'urg-after-eq') + h['urg']
+    for n, w in enumerate(h.get('comment') or []):
+        s += (_gap(gaps, 'in-comment', n - 1) if n else _gap(gaps, 'urg-comment')) + w
+    for m, (k, words) in enumerate(h.get('pairs') or []):
+        s += _gap(gaps, 'before-comma', m) + ',' + _gap(gaps, 'after-comma', m)
+        s += k + _gap(gaps, 'pair-before-eq', m) + '=' + _gap(gaps, 'pair-after-eq', m)
+        for n, w in enumerate(words):
+            s += (_gap(gaps, 'in-value', n - 1) if n else '') + w
+    return s + _gap(gaps, 'h-trailing')
+
+
+def ws_trailer(t, gaps):
+    """Trailer line from its items t = {name (words), mail (words), date (words; the first may be 'Mon,')}."""
+    s = ' --' + _gap(gaps, 'after-dashes')
+    for n, w in enumerate(t['name']):
+        s += (_gap(gaps, 'in-name', n - 1) if n else '') + w
+    s += _gap(gaps, 'name-mail') + '<'
+    for n, w in enumerate(t['mail']):
+        s += (_gap(gaps, 'in-mail', n - 1) if n else '') + w
+    s += '>' + _gap(gaps, 'mail-date')
+    date = list(t['date'])
+    if date and date[0].endswith(','):
+        s += date.pop(0) + _gap(gaps, 'dow-day')
+    for n, w in enumerate(date):
+        s += (_gap(gaps, 'in-date', n - 1) if n else '') + w
+    return s + _gap(gaps, 't-trailing')
+
+
+def ws_block(base, gaps, changes=None):
+    """Lines of one block (heading .. blank line after the trailer)."""
+    return [ws_heading(base['h'], gaps)] + list(changes or WS_CHANGES) + [ws_trailer(base['t'], gaps), '']
+
+
+def ws_slot_runs(slot, run):
+    """Spellings of one slot built from one run: the run itself, plus - where the format prescribes a literal blank
+    next to the gap - the run next to that blank."""
+    out = [run]
+    if slot in ('after-dashes', 'pkg-paren'):
+        out.append(' ' + run)
+    if slot == 'name-mail':
+        out.append(run + ' ')
+    if slot == 'in-mail':                 # the regular spelling has no blank here: a one-blank variant as well
+        out.append(' ')
+    return out
+
+
+def ws_enumerated():
+    """-> list of (slot list, run, base index, gaps): every slot x every run on both fixed blocks (slots without an
+    effect on a block are skipped), plus every run in all core slots at once and in all heading / all trailer slots."""
+    out, seen = [], set()
+    for bi, base in enumerate(WS_BASES):
+        regular = ws_block(base, {})
+        for slot in WS_SLOTS:
+            for run in WS_RUNS:
+                for sp in ws_slot_runs(slot, run):
+                    gaps = {slot: sp}
+                    ls = ws_block(base, gaps)
+                    key = (ls[0], ls[-2])
+                    if ls == regular or key in seen:
+                        continue
+                    seen.add(key)
+                    out.append(([slot], sp, bi, gaps))
+        for run in WS_RUNS:
+            for slots in (WS_CORE_SLOTS, [s for s in WS_CORE_SLOTS if s in WS_HEADING_SLOTS],
+                          [s for s in WS_CORE_SLOTS if s in WS_TRAILER_SLOTS]):
+                gaps = dict((s, run + ' ' if s == 'name-mail' else run) for s in slots)
+                out.append((list(slots), run, bi, gaps))
+    return out
+
+
+WS_WORDS = ['a', 'bc', 'x=y', '(w)', '100%', 'foó', '{0}', 'see', 'NEWS', 'v2;', 'z.']
+WS_NAME_WORDS = ['A', 'B', 'Zoë', 'Q.', "O'Neil", 'jr.', '(x)', '漢字', 'van', 'der', '%s']
+WS_KEYS = ['binary-only', 'closes', 'XS-Foo', 'Binary-Only', 'k9', 'medium-urgency', 'x']
+
+
+def ws_random_run(r):
+    k = r.random()
+    if k < 0.5:
+        return r.choice(WS_RUNS)
+    if k < 0.74:
+        return ' ' * r.choice([2, 3, 3, 4, 5, 6, 7, 8, 9, 16])
+    if k < 0.92:
+        return ''.join(r.choice(' \t') for _ in range(r.randint(2, 7)))
+    return r.choice(WS_UNI_RUNS)
+
+
+def ws_random_base(r):
+    comment = []
+    if r.random() < 0.6:
+        comment = r.sample(WS_WORDS, r.randint(1, 4))
+        comment[0] = '(' + comment[0]
+        comment[-1] += ')'
+    pairs = []
+    for k in r.sample(WS_KEYS, r.choice([0, 1, 1, 2, 3])):
+        if k.lower() not in [p[0].lower() for p in pairs]:
+            pairs.append([k, r.sample(WS_WORDS, r.randint(1, 4))])
+    h = {'pkg': pkg(r), 'ver': ver(r), 'dists': [r.choice(DISTS) for _ in range(r.choice([1, 2, 2, 3, 3, 4]))],
+         'urg': urgency(r), 'comment': comment, 'pairs': pairs}
+    d = date(r).split()
+    t = {'name': r.sample(WS_NAME_WORDS, r.randint(1, 4)),
+         'mail': r.choice([['a@b.c'], ['x@y'], ['first.last+tag@example.org'], ['a@b', 'c'], ['one', 'two', 'three']]),
+         'date': d}
+    return {'h': h, 't': t}
+
+
+def ws_random_gaps(r):
+    """1..5 slots (core slots three times as likely), each with its own run; a multi-gap slot (between
+    distributions, inside the date ...) may get a different run per gap."""
+    pool = WS_SLOTS + WS_CORE_SLOTS + WS_CORE_SLOTS
+    gaps = {}
+    for _ in range(r.choice([1, 1, 2, 2, 3, 4, 5])):
+        slot = r.choice(pool)
+        run = r.choice(ws_slot_runs(slot, ws_random_run(r))[:2])
+        if slot in ('dist-dist', 'in-comment', 'in-value', 'in-name', 'in-date', 'before-comma', 'after-comma') \
+                and r.random() < 0.4:
+            run = [run, r.choice([_gap({}, slot), ws_random_run(r)]), ws_random_run(r)]
+        gaps[slot] = run
+    return gaps
+
+
+def ws_random_changes(r):
+    lines = ['']
+    for _ in range(r.randint(1, 3)):
+        lines.append(change(r))
+    lines.append('')
+    return lines
+
+
+def ws_text(r):
+    """-> (lines, info): 1-3 blocks, at least one of them with irregular internal blanks in its heading / trailer,
+    the others regular; info = {'slots': [...], 'runs': [run classes], 'k': index of the first irregular block,
+    'n': number of blocks}."""
+    n = r.choice([1, 1, 2, 2, 3])
+    which = set([r.randrange(n)])
+    for i in range(n):
+        if r.random() < 0.3:
+            which.add(i)
+    lines, slots, runs = [], [], []
+    if r.random() < 0.15:
+        lines.append('')
+    for i in range(n):
+        if i in which:
+            gaps = ws_random_gaps(r)
+            lines += ws_block(ws_random_base(r), gaps, ws_random_changes(r))
+            for s in sorted(gaps):
+                slots.append(s)
+                for run in (gaps[s] if isinstance(gaps[s], list) else [gaps[s]]):
+                    runs.append(ws_run_class(run))
+        else:
+            lines += block(r, rich=r.random() < 0.4) + ['']
+    return lines, {'slots': sorted(set(slots)), 'runs': sorted(set(runs)), 'k': min(which), 'n': n}
